@@ -69,7 +69,7 @@ class World:
             return ["callable", dumper_battery(fn, op["t"])], fn, None
         if kind == "get_converter":
             src, dst, _ = pools.CONVERTERS[op["conv"]]
-            out, fn = outcome(_get_converter, self.handles[op["h"]], src, dst, op.get("rcp"))
+            out, fn = outcome(_get_converter, self.handles[op["h"]], src, dst, op.get("rcp"), op.get("rcp_shared", False))
             self.callables.append((fn if out[0] == "ok" else None, self.ref_desc(op)))
             if out[0] != "ok":
                 return out, None, None
@@ -77,7 +77,7 @@ class World:
         if kind == "convert":
             _, dst, _ = pools.CONVERTERS[op["conv"]]
             arg = pools.obj(op["o"])
-            out, res = outcome(_convert, self.handles[op["h"]], arg, dst, op.get("rcp"))
+            out, res = outcome(_convert, self.handles[op["h"]], arg, dst, op.get("rcp"), op.get("rcp_shared", False))
             return out, res, arg
         if kind == "call":
             fn, tmpl = self.callables[op["c"]]
@@ -90,9 +90,10 @@ class World:
             h = op["h"]
             step = ["replace", op["opts"]] if kind == "replace" else ["extend", op["recipe"], op.get("as", "list")]
             base = self.hdesc[h]["base"]
-            out, new = outcome(pools.apply_step, self.handles[h], base, step)
-            if out[0] != "ok":
-                return out, None, None
+            try:
+                new = pools.apply_step(self.handles[h], base, step)     # (no signature of a whole retort object)
+            except BaseException as e:  # noqa: BLE001
+                return ["exc", sig_exc(e)], None, None
             nd = dict(self.hdesc[h])
             nd["chain"] = [*nd.get("chain", []), step]
             self.hdesc.append(nd)
@@ -108,17 +109,18 @@ class World:
         raise ValueError(op)
 
 
-def _get_converter(retort, src, dst, rcp):
-    """rcp: name of a per-call recipe (get_converter(..., recipe=[...])) or None"""
+def _get_converter(retort, src, dst, rcp, shared=False):
+    """rcp: name of a per-call recipe (get_converter(..., recipe=[...])) or None; shared: the same provider
+    objects on every call"""
     if rcp is None:
         return retort.get_converter(src, dst)
-    return retort.get_converter(src, dst, recipe=pools.CONV_RECIPES[rcp]())
+    return retort.get_converter(src, dst, recipe=pools.conv_recipe(rcp, shared))
 
 
-def _convert(retort, arg, dst, rcp):
+def _convert(retort, arg, dst, rcp, shared=False):
     if rcp is None:
         return retort.convert(arg, dst)
-    return retort.convert(arg, dst, recipe=pools.CONV_RECIPES[rcp]())
+    return retort.convert(arg, dst, recipe=pools.conv_recipe(rcp, shared))
 
 
 def loader_battery(fn, tname):
@@ -154,14 +156,14 @@ def compute_ref(desc):
         return out if out[0] != "ok" else ["callable", dumper_battery(fn, desc["t"])]
     if kind == "get_converter":
         src, dst, _ = pools.CONVERTERS[desc["conv"]]
-        out, fn = outcome(_get_converter, retort, src, dst, desc.get("rcp"))
+        out, fn = outcome(_get_converter, retort, src, dst, desc.get("rcp"), desc.get("rcp_shared", False))
         return out if out[0] != "ok" else ["callable", converter_battery(fn, desc["conv"])]
     if kind == "convert":
         _, dst, _ = pools.CONVERTERS[desc["conv"]]
-        return outcome(_convert, retort, pools.obj(desc["o"]), dst, desc.get("rcp"))[0]
+        return outcome(_convert, retort, pools.obj(desc["o"]), dst, desc.get("rcp"), desc.get("rcp_shared", False))[0]
     if kind == "convert_call":
         src, dst, _ = pools.CONVERTERS[desc["conv"]]
-        out, fn = outcome(_get_converter, retort, src, dst, desc.get("rcp"))
+        out, fn = outcome(_get_converter, retort, src, dst, desc.get("rcp"), desc.get("rcp_shared", False))
         if out[0] != "ok":
             return ["skipped"]
         return outcome(fn, pools.obj(desc["o"]))[0]
